@@ -993,4 +993,54 @@ theorem run_callResolved_other (F : Nat) (fv : Val) (args : List Expr) (s : St) 
     · simp only [run_bind, run_pushData, run_incPc]; rfl
     · simp only [run_err]
 
+/-! ## The tables grow: a new function object, a new closure, a longer id map -/
+
+theorem RelF.grow {m m' : Nat → Nat} {s s' : St} {rs rs' : Ref.St} {env : Nat} (h : RelF m s rs env)
+    (hsc : s'.scopes = s.scopes) (hlin : s'.linear = s.linear) (hcur : s'.curfunc = s.curfunc)
+    (hheap : s'.heap = s.heap) (htr : s'.trace = s.trace)
+    (hfl : s.fns.length ≤ s'.fns.length) (hfo : ∀ id, id < s.fns.length → fnOf s' id = fnOf s id)
+    (hfr : rs'.frames = rs.frames) (hrh : rs'.heap = rs.heap) (hrt : rs'.trace = rs.trace) (hcl : ClosExt rs rs')
+    (hm : MExt s m m') : RelF m' s' rs' env := by
+  have hso : ∀ i, scopeOf s' i = scopeOf s i := fun i => by unfold scopeOf; rw [hsc]
+  have hfl' : isFnScope s' = isFnScope s := by funext i; unfold isFnScope; rw [hso]
+  have hgood : ∀ id, GoodFn m s rs id → GoodFn m' s' rs' id := fun id hg => hg.mono hfl hfo hcl (hm id hg.lt)
+  obtain ⟨b, hc, hfc⟩ := h.ctx
+  obtain ⟨fr0, hf0, hp0, hfl0⟩ := h.root0
+  have htrv : ∀ i x v, (scopeOf s i).vars.lookup x = some v → trf m' v = trf m v := fun i x v hv =>
+    (h.vok i x v hv) m' m id id id id ⟨fun id hg => hm id hg.lt, fun _ _ => rfl, fun _ _ => rfl⟩
+  refine ⟨by rw [hsc, hfr]; exact h.len, ?_, ⟨fr0, by rw [hfr]; exact hf0, hp0, by rw [hfl']; exact hfl0⟩,
+    ⟨b, by rw [hfl', hfr, hlin]; exact hc, ?_⟩, ?_, ?_, by rw [htr, hrt]; exact h.trace,
+    fun hh hmem => by rw [hfr]; exact h.globals hh hmem,
+    fun i x v hv => ValIn.mono (h.vok i x v (by rw [← hso]; exact hv)) hgood, by rw [hheap]; exact HeapIn.mono h.hok hgood⟩
+  · intro i x
+    rw [hfr, hso, h.vars i x]
+    cases hl : (scopeOf s i).vars.lookup x with
+    | none => rfl
+    | some v => simp only [Option.map_some, htrv i x v hl]
+  · rw [hcur]
+    exact hfc.transfer (by unfold topSeg; rw [hfl', hlin]) hfl hfo
+  · intro i hi
+    rw [hfl'] at hi
+    obtain ⟨t, h1, h2⟩ := h.fscopes i hi
+    have ht : t < s.fns.length := by
+      rcases Nat.lt_or_ge t s.fns.length with ht | ht
+      · exact ht
+      · have : fnOf s t = {} := by simp [fnOf, List.getD_eq_getElem?_getD, List.getElem?_eq_none ht]
+        rw [this] at h2; cases h2
+    exact ⟨t, by rw [hso]; exact h1, by rw [hfo t ht]; exact h2⟩
+  · rw [hrh, hheap, h.heap]
+    exact (HOk.tr_ext h.hok hm).symm
+
+/-- `CreateClosureInstr`: a copy of the template with the current closing stack and parent -/
+def closureObj (s : St) (t : Nat) : FnObj := { fnOf s t with closing := closingNow s, parent := some s.curfunc }
+
+def afterClosure (s : St) (t : Nat) : St :=
+  { s with pc := s.pc + 1, fns := s.fns ++ [closureObj s t], data := some (.fn s.fns.length) :: s.data }
+
+theorem exec_createClosure (f t : Nat) (s : St) :
+    (exec (f + 1) (.createClosure t)).run s = (.ok (), afterClosure s t) := by
+  rw [exec]
+  simp only [run_bind, run_incPc, run_get, run_set, run_pushData]
+  rfl
+
 end ZygoVerif.Sim
